@@ -103,6 +103,12 @@ def configs(tier, seed):
             c["refused_before"] = sorted({0, len(c["subs"])} if k % 8 == 2 else {len(c["subs"]) // 2})
         if k % 5 == 3 and len(c["subs"]) >= 2:
             c["elab_before"] = [len(c["subs"]) - 1]
+    # directed: an add() refused for a taken window NAME (k % 4 == 2) and the same subordinate added twice (k % 4 == 3), in the
+    # middle and at the end of the history
+    sub = lambda i, feat=(): {"aw": i % 2, "feat": list(feat), "sparse": False, "name": f"n{i}", "addr": None}
+    for n, where in ((2, [2]), (3, [3]), (4, [2, 3]), (7, [3, 6, 7])):
+        cfgs.append({"aw": 6, "dw": 32, "g": 8, "feat": ["err", "stall"], "align": 0, "subs": [sub(i, ["err"] if i % 2 else []) for i in range(n)],
+                     "refused_before": where})
     return cfgs
 
 
@@ -135,6 +141,27 @@ def build(cfg, upto=None):
         subs.append(sb)
     def refused_add(dec, k):
         """an add() the decoder must refuse; afterwards it must behave as if the call had never been made"""
+        taken = [sc["name"] for sc in cfg["subs"][:len(subs)] if sc["name"]]
+        if k % 4 == 2 and taken:
+            # a perfectly valid subordinate under a window name that is already taken: refused for its NAME, after every other check passed
+            sb = wishbone.Interface(addr_width=0, data_width=cfg["dw"], granularity=cfg["g"], features=[f for f in cfg["feat"] if f in ("err", "rty", "stall")],
+                                    path=(f"refused{k}",))
+            sb.memory_map = MemoryMap(addr_width=max(1, log2(cfg["dw"] // cfg["g"])), data_width=cfg["g"])
+            REFUSED.append(sb)
+            try:
+                dec.add(sb, name=taken[-1])
+                raise AssertionError(f"a second window named {taken[-1]!r} was accepted")
+            except (ValueError, TypeError):
+                pass
+            return
+        if k % 4 == 3 and subs:
+            # the SAME subordinate a second time (at another address): refused, and the first registration must survive
+            try:
+                dec.add(subs[-1], name=f"again{k}")
+                raise AssertionError("a subordinate was accepted twice")
+            except (ValueError, TypeError):
+                pass
+            return
         if k % 2 == 0:          # window larger than the decoder's address space
             aw_, dw_, g_ = cfg["aw"] + 1, cfg["dw"], cfg["g"]
         else:                    # coarser granularity than the decoder
